@@ -367,6 +367,12 @@ func disjointWriters(t *testing.T, prop string) {
 		want := models[0].Clone()
 		merged, refused, missed, mergedTwice := false, false, false, false
 		for i, r := range res {
+			if r.Panicked && knownMixture && s.OthersMutatedRegistryDuringLastMerge(i) && strings.Contains(r.OpErr.Error(), "refetchAndMergeModifications") {
+				// the same finding's other symptom: the B-tree code panics (index out of range in promote) while the
+				// merge pass replays an add on a mixture of old and new nodes
+				rec.Exclude("panic inside a refetch-and-merge pass that another writer's commit overlapped (known finding: merge pass navigates a mixture of old and new nodes)")
+				return
+			}
 			if r.OpErr != nil {
 				t.Fatalf("writer p%d: operation failed: %v\n%s", i, r.OpErr, desc)
 			}
